@@ -14,21 +14,34 @@ TRUSTED_EXTRA = []
 CHANGE = ("add", "addmany", "remove", "removemany", "removefiltered", "update", "updatemany", "removeread", "updateread", "updatefiltered")
 
 
+EX_CALLBACKS = {"add_policy", "remove_policy", "remove_filtered_policy", "save_policy", "add_policies", "remove_policies"}
+UPD_CALLBACKS = {"update_policy", "update_policies"}
+CALLBACK_OF = {"add": "add_policy", "addmany": "add_policies", "remove": "remove_policy", "removemany": "remove_policies", "removefiltered": "remove_filtered_policy",
+               "update": "update_policy", "updatemany": "update_policies", "save": "save_policy"}
+
+
+def offered(kind):
+    if kind == "ex":
+        return EX_CALLBACKS
+    if kind == "upd":
+        return UPD_CALLBACKS
+    if kind and kind.startswith("part:"):
+        return set(x for x in kind[5:].split(",") if x)
+    return set()
+
+
 def expected(op, kind):
-    """the one notification the property prescribes for a successful call"""
+    """the one notification the property prescribes for a successful call: the callback that corresponds to the
+    operation if the watcher offers it, else the generic update"""
     n = op[0]
-    if n == "updatefiltered":
-        return "update"  # no specific callback exists for the filtered update
-    if n in ("update", "updatemany"):
-        if kind != "upd":
-            return "update"
-        if n == "update":
-            return f"update_for_update_policy/{enc_rule(op[1])}/{enc_rule(op[2])}"
+    if n == "updatefiltered" or CALLBACK_OF[n] not in offered(kind):
+        return "update"  # (no specific callback exists for the filtered update)
+    if n == "update":
+        return f"update_for_update_policy/{enc_rule(op[1])}/{enc_rule(op[2])}"
+    if n == "updatemany":
         return f"update_for_update_policies/{enc_rules(op[1])}/{enc_rules(op[2])}"
     if n == "save":
-        return "update_for_save_policy" if kind == "ex" else "update"
-    if kind != "ex":
-        return "update"
+        return "update_for_save_policy"
     sec = op[1]
     if n == "add":
         return f"update_for_add_policy/{sec}/{enc_rule(op[2])}"
@@ -61,6 +74,19 @@ def judge(res, cfg, hist, i, op, rec, model, case, queries):
     success = rec["ret"] == "T" or (rec["ret"].startswith("L") and rec["ret"] != "L~") or (op[0] == "save" and rec["ret"] == "-")
     raised = rec["ret"].startswith("!")
     if raised:
+        # a call that fails by raising reports failure: no notification either
+        if rec["wcalls"]:
+            res.violation(
+                {
+                    "signature": f"C20:{sig_op[0]}:{sig_op[1] if len(sig_op) > 1 and sig_op[1] in ('p', 'g', 'g2') else ''}:{cfg.watcher}{':async' if cfg.is_async else ''}:raised",
+                    "what": f"{cfg.shape}, {cfg.watcher} watcher: {list(sig_op)} raised {rec['ret']} and yet notified {rec['wcalls']}",
+                    "case": case,
+                    "expected": [],
+                    "observed": rec["wcalls"],
+                    "model_text": ec.TEXT[cfg.shape],
+                }
+            )
+            return False
         return True
     if sig_op[0] == "updatefiltered" and not save_on and notify_on:
         # the property speaks about auto-save on (and about auto-notify off); the filtered update notifies outside
@@ -140,6 +166,14 @@ def gen(ctx, deep):
                     for a in ops:
                         for b in ops:
                             jobs.append((cfg, [a, b]))
+            # a model with a second role definition (g2): its calls, valid and refused, notify like those of g
+            P2, G2a, G2b, _ = ec.universe("res")
+            ops2 = [o for o in ec.op_alphabet("res") if (o[0] in CHANGE or o[0] == "save") and len(o) > 1 and o[1] == "g2"]
+            for init2 in ({"p": [], "g": [], "g2": []}, {"p": P2, "g": G2a, "g2": G2b}):
+                cfg2 = ec.Config("res", adapter=True, watcher=kind, initial=init2, is_async=is_async)
+                for a in ops2:
+                    jobs.append((cfg2, [a]))
+                    jobs.append((cfg2, [a, rng.choice(ops2)]))
             n = 150 if not deep else 1500
             for _ in range(n):
                 cfg = ec.Config(shape, adapter=True, watcher=kind, initial=rng.choice(inits), is_async=is_async)
@@ -225,12 +259,42 @@ def unfaithful_adapter_stream(ctx, res, deep):
                             )
 
 
+def partial_watcher_stream(ctx, res, deep):
+    """watchers offering only SOME of the operation-specific callbacks (implementation side only; the Lean model knows the
+    plain, the extended and the update-extended watcher): a call notifies through its own callback if that one is offered,
+    else through update() - never through the callback of another operation, never once per rule"""
+    rng = ctx["rng"]
+    shape = "rbac"
+    P, G, G2, R = ec.universe(shape)
+    ops = [o for o in ec.op_alphabet(shape) if (o[0] in CHANGE and o[0] not in ("removeread", "updateread", "updatefiltered")) or o[0] == "save"]
+    ops += [("update", P[0], P[0][:-1] + ["write"]), ("updatemany", [P[0]], [P[0][:-1] + ["write"]])]
+    allcb = sorted(EX_CALLBACKS | UPD_CALLBACKS)
+    kinds = ["part:add_policy,remove_policy", "part:add_policies,remove_policies", "part:update_policy", "part:update_policies", "part:save_policy,remove_filtered_policy"]
+    for _ in range(4 if not deep else 16):
+        kinds.append("part:" + ",".join(c for c in allcb if rng.random() < 0.5))
+    for is_async in (False, True):
+        for kind in kinds:
+            for init in ({"p": [], "g": [], "g2": []}, {"p": P, "g": G, "g2": G2}):
+                cfg = ec.Config(shape, adapter=True, watcher=kind, initial=init, is_async=is_async)
+                for a in ops:
+                    hist = [a] if not deep else [a, rng.choice(ops)]
+                    out = ec.run_history(cfg, hist, [], fresh_oracle=False)
+                    for i, (op, rec) in enumerate(zip(hist, out)):
+                        rec["pre"] = out[i - 1]["pol"] if i else {k: [list(x) for x in cfg.initial.get(k, [])] for k in ("p", "g", "g2")}
+                        case = {"config": {"shape": cfg.shape, "text": cfg.text, "matchfn": None, "adapter": True, "watcher": kind, "async": is_async, "late": False, "sync_callbacks": False, "listform": False, "initial": init}, "history": [list(o) for o in hist[: i + 1]], "step": i}
+                        res.evaluations += 1
+                        res.count("partial-watcher:" + op[0])
+                        res.nontrivial.add(hash(("partial", kind, is_async, repr(init), repr(hist))))
+                        judge(res, cfg, hist, i, op, rec, None, case, None)
+
+
 def run(ctx):
     res = common.Result()
     stages = [False] if not ctx["deep"] else ([True] if ctx["proof_ok"] else [False, True])
     for deep in stages:
         ec.run_configs(res, gen(ctx, deep), judge, fresh_oracle=False)
         unfaithful_adapter_stream(ctx, res, deep)
+        partial_watcher_stream(ctx, res, deep)
         if res.spec_violations:
             break
     res.rule = (
